@@ -81,6 +81,8 @@ VERDICT = {
     "C10-4": ("C10 H2", "guard-stack kernel added after the sub-agent's report; replay = two orders of the file arguments"),
     "C20-3": ("C20 K5", "TransformVisitor fidelity kernel added after the sub-agent's report; replay = real mypy on a function over AnyStr"),
     "C20-4": ("C20 K4b", "visitor sweep on recursive aliases added after the sub-agent's report; replay = mypy --cache-fine-grained"),
+    "C14-3": ("C13 K1c, C14 K6", "C13 K1c as it stood (same slip as C13-4); the parser-differential kernel K6 added to C14 afterwards also reports it"),
+    "C14-4": ("C14", "as it stood (Errors.report clamps)"),
     "C20-1": ("C20 K4", "recursion kernel (dangerous_comparison on recursive alias types from a real build) added after the miss; replay = real mypy --strict-equality"),
     "C20-2": ("C20 K3", "daemon work-list kernel added after the miss; replay = real daemon under a time limit vs a fresh run"),
 }
@@ -105,13 +107,20 @@ def main() -> None:
         tl = os.path.join(d, "tests.log")
         if os.path.exists(tl):
             lines = [l.rstrip() for l in open(tl, encoding="utf-8", errors="replace") if l.strip()]
-            summary = next((l for l in reversed(lines) if re.search(r"\d+ passed", l)), "")
-            unexpected = [l for l in lines if l.startswith(("FAILED", "ERROR")) and not any(a in l for a in ALLOWED_FAIL)]
+            main = [l for l in lines if not l.startswith(("RERUN", "SELECTION"))]
+            rerun = [l[len("RERUN: "):] for l in lines if l.startswith("RERUN: ")]
+            selection = next((l[len("SELECTION: "):] for l in lines if l.startswith("SELECTION: ")), None)
+            summary = next((l for l in reversed(main) if re.search(r"\d+ passed", l)), "")
+            unexpected = [l for l in main if l.startswith(("FAILED", "ERROR")) and not any(a in l for a in ALLOWED_FAIL)]
+            rerun_summary = next((l for l in reversed(rerun) if re.search(r"\d+ (passed|failed)", l)), "")
+            rerun_failed = [l for l in rerun if l.startswith(("FAILED", "ERROR"))]
+            ok = bool(summary) and (not unexpected or (bool(rerun_summary) and not rerun_failed))
             tests = {
-                "command": "tools/seed_tests.sh: pinned suite (pytest -n 8) on a scratch worktree of /repo with the patch applied",
+                "command": ("tools/seed_tests2.sh: the part of the pinned suite that can see the touched files (" + (selection[:120] + " ...)" if selection else "") if selection else "tools/seed_tests.sh: the whole pinned suite (pytest -n 8)") + " on a scratch worktree of /repo with the patch applied",
                 "summary": summary,
                 "failures_outside_the_known_always_failing_set": unexpected,
-                "passes_existing_tests": bool(summary) and not unexpected,
+                "rerun_of_those_in_isolation": rerun_summary or None,
+                "passes_existing_tests": ok,
             }
         caught, note = VERDICT.get(name, (None, "not evaluated yet"))
         meta = {
